@@ -102,7 +102,9 @@ pub fn run(a: &Args) {
                 // typed variants with content are exercised by the rdata topic; opaque content here only
                 // for NULL / unknown codes (any bytes are valid content for them)
                 let named = !matches!(TYPE::from(t), TYPE::Unknown(_)) && t != 10;
-                if with_data && named {
+                // ... and for the opaque variant constructed with the code of a supported type (public
+                // constructor RData::NULL(code, ..)): it serialises with that code, so that is its type
+                if with_data && named && how == "parsed" {
                     continue;
                 }
                 if t == 41 && how == "parsed" {
